@@ -49,6 +49,9 @@ def rowName : Op → Option String
   | .setActivity _ => some "set_activity_image_sptr"
   | .setDensity _ => some "set_density_image_sptr"
   | .setSpImage _ => some "set_density_image_for_scatter_points_sptr"
+  | .setActivityInPlace _ => some "set_activity_image_sptr"
+  | .setDensityInPlace _ => some "set_density_image_sptr"
+  | .setSpImageInPlace _ => some "set_density_image_for_scatter_points_sptr"
   | .setExam _ => some "set_exam_info"
   | .setZoom _ => some "set_image_downsample_factors"
   | .setThr _ => some "set_attenuation_threshold"
@@ -77,7 +80,7 @@ def Faithful (W : World) (s : St) (op : Op) (f : SetterRow) : Prop :=
 
 macro "unfold_setters" : tactic =>
   `(tactic| simp_all [St.comp, St.datum, DVal.isCleared, step, setTemplate, setTemplateVal, setActivity, setDensity, setSpImage,
-      sampleScatterPoints, setExam, setZoom, setThr, setCacheEnabled, setUseCache, setDsBool, setDsRings, setDsDets,
+      sampleScatterPoints, setActivityInPlace, setDensityInPlace, setSpImageInPlace, mutateActivity, mutateDensity, setExam, setZoom, setThr, setCacheEnabled, setUseCache, setDsBool, setDsRings, setDsDets,
       downsampleScanner, downsampleScannerCore, downsampleSp])
 
 macro "frame_c" : tactic => `(tactic| (intro c hc; cases c <;> unfold_setters))
@@ -111,6 +114,9 @@ theorem table_faithful (W : World) (s : St) (op : Op) (f : SetterRow) (hf : rowO
     cases k with
     | none => exact faithful_of_unchanged W s _ _ rfl
     | some k => changed
+  case setActivityInPlace a => changed
+  case setDensityInPlace m => changed
+  case setSpImageInPlace i => changed
   case setExam e => changed
   case setZoom z => changed
   case setThr t => changed
